@@ -1579,7 +1579,12 @@ func checkC19(w *World, r *Report) {
 	// columns, its value does not; and an error that crosses a module boundary (a loaded file) is re-positioned,
 	// not wrapped once more, so the value the program threw is the value the program catches on every route
 	r.include("C19.caught-", "C03.", "catch binds the thrown value itself on every delivery route: never the positioned text of a lisp error, and never a wrapper whose presence depends on which module the error came from", checkC03, func(rule string) bool {
-		return rule == "C03.object"
+		return rule == "C03.object" || rule == "C03.lisp-handlers"
+	})
+	// a program sent with its placeholder values is the program: the writer ends the preamble with the blank line
+	// the reader stops at, so a first line of the source that looks like a preamble line stays source
+	r.include("C19.preamble-", "C15.", "the preamble the writer puts before a program always ends in the blank line its reader stops at: no line of the program is taken for a placeholder value", checkC15, func(rule string) bool {
+		return rule == "C15.format"
 	})
 	// what a program means does not depend on which environment of the process was prepared last
 	r.include("C19.process-", "C11.", "eval and load-file evaluate in the environment they were registered in: no package-level variable stands in for it", checkC11, func(rule string) bool {
@@ -2202,14 +2207,21 @@ func checkC20(w *World, r *Report) {
 									}
 								}
 								for _, sel := range sels {
+									known := false
 									for kk, want := range adapterFor {
 										if sel.fn == want {
 											found = true
+											known = true
 											viaParam[c] = true
 											if k, in := regionOfBlock(sel.blk); sel.blk == nil || !in || k != kk {
 												okRes, detail = false, want.Name()+" selected outside the region of its result count"
 											}
 										}
+									}
+									// the variable can also hold a function that is none of the three result adapters: what
+									// becomes of the function's error result is then decided by something the table does not know
+									if !known && sel.fn != nil {
+										okRes, detail = false, sel.fn.Name()+" can be selected, which is none of the binder's result adapters"
 									}
 								}
 							}
@@ -2265,7 +2277,20 @@ func checkC20(w *World, r *Report) {
 					for _, in2 := range ad.Blocks[0].Instrs {
 						if d, ok := in2.(*ssa.Defer); ok {
 							al, isAl := d.Call.Args[len(d.Call.Args)-1].(*ssa.Alloc)
-							okRec = isAl && al.Parent() == ad && al.Comment == "err"
+							okRec = isAl && al.Parent() == ad
+							// ... and that variable is the closure's error result: what the closure answers after a
+							// recovered panic is read from it (a local of the same name is lost when the panic unwinds)
+							if okRec {
+								isResult := false
+								if ad.Recover != nil && len(ad.Recover.Instrs) > 0 {
+									if ret, ok := ad.Recover.Instrs[len(ad.Recover.Instrs)-1].(*ssa.Return); ok && len(ret.Results) > 0 {
+										if ld, ok := ret.Results[len(ret.Results)-1].(*ssa.UnOp); ok && ld.Op == token.MUL && ld.X == ssa.Value(al) {
+											isResult = true
+										}
+									}
+								}
+								okRec = isResult
+							}
 						}
 					}
 				}
